@@ -183,78 +183,200 @@ Qed.
 Definition wit_code (cid src : string) : list (pystr * json) :=
   [(k_cell_type, JStr (of_ascii "code")); (k_execution_count, JNull); (k_id, JStr (of_ascii cid)); (k_metadata, JObj []);
    (k_outputs, JArr []); (k_source, JStr (of_ascii src))].
+Definition wit_src : pystr := of_ascii "<<< x = 1 === x = 2 >>>".
+Definition wit_similar (pol : similar_id_policy) (apol : similar_att_policy) : json :=
+  match similar_insert_cell_with pol apol (wit_code "cell1" "x = 1") (wit_code "cell2" "x = 2") [k_source; k_id] wit_src with
+  | Some c => c | None => JNull end.
 
 (* pinned code, 4.5: both inserted cells valid, the combined cell carries a dict-valued id and is invalid *)
-Lemma similar_insert_refuted_dict :
+Lemma similar_insert_refuted_dict : forall apol,
   all_valid 5 cell_schema [JObj (wit_code "cell1" "x = 1"); JObj (wit_code "cell2" "x = 2")] = true /\
-  exists c, similar_insert_cell_with SimIdDict (wit_code "cell1" "x = 1") (wit_code "cell2" "x = 2") [k_source; k_id] (of_ascii "<<< x = 1 === x = 2 >>>") = Some c /\
+  exists c, similar_insert_cell_with SimIdDict apol (wit_code "cell1" "x = 1") (wit_code "cell2" "x = 2") [k_source; k_id] wit_src = Some c /\
             validate (nb_defs 5) F cell_schema c = Some false.
 Proof.
-  split; [ vm_compute; reflexivity | ].
-  exists (match similar_insert_cell_with SimIdDict (wit_code "cell1" "x = 1") (wit_code "cell2" "x = 2") [k_source; k_id] (of_ascii "<<< x = 1 === x = 2 >>>") with Some c => c | None => JNull end).
-  split; vm_compute; reflexivity.
+  intros apol. split; [ vm_compute; reflexivity | ].
+  exists (wit_similar SimIdDict apol). destruct apol; split; vm_compute; reflexivity.
 Qed.
 
 (* reviewed fix (keep the local id): the same witness gives a valid cell *)
-Lemma similar_insert_local_example :
-  exists c, similar_insert_cell_with SimIdLocal (wit_code "cell1" "x = 1") (wit_code "cell2" "x = 2") [k_source; k_id] (of_ascii "<<< x = 1 === x = 2 >>>") = Some c /\
+Lemma similar_insert_local_example : forall apol,
+  exists c, similar_insert_cell_with SimIdLocal apol (wit_code "cell1" "x = 1") (wit_code "cell2" "x = 2") [k_source; k_id] wit_src = Some c /\
             validate (nb_defs 5) F cell_schema c = Some true.
+Proof. intros apol. exists (wit_similar SimIdLocal apol). destruct apol; split; vm_compute; reflexivity. Qed.
+
+(* --- the attachments branch: both sides' attachments are kept, differing ones under LOCAL_/REMOTE_ names --- *)
+Lemma validate_type_obj d n kv : validate d (S n) (SType [TObj]) (JObj kv) = Some true.
+Proof. reflexivity. Qed.
+
+Lemma entry_att vf s k0 v : entry_check vf [] [(PAny, s)] None (k0, v) = Some true <-> vf s v = Some true.
+Proof. unfold entry_check. simpl. destruct (vf s v) as [[|]|]; simpl; split; congruence. Qed.
+
+(* an attachments object is valid iff each of its values is a valid mimebundle (whatever the names) *)
+Lemma att_valid_iff k n kv : k <= 5 ->
+  validate (nb_defs k) (S (S (S n))) attachments_schema (JObj kv) = Some true <->
+  (forall p, In p kv -> validate (nb_defs k) n mimebundle_schema (snd p) = Some true).
 Proof.
-  exists (match similar_insert_cell_with SimIdLocal (wit_code "cell1" "x = 1") (wit_code "cell2" "x = 2") [k_source; k_id] (of_ascii "<<< x = 1 === x = 2 >>>") with Some c => c | None => JNull end).
-  split; vm_compute; reflexivity.
+  intros Hk. unfold attachments_schema, ref.
+  rewrite (validate_ref _ _ _ _ _ (att_def_is k Hk)). unfold att_def.
+  rewrite validate_allof. cbv [map]. rewrite validate_type_obj, validate_props_obj.
+  split.
+  - intros H p Hp.
+    destruct (all_o (map (entry_check (validate (nb_defs k) n) [] [(PAny, mimebundle_schema)] None) kv)) as [[|]|] eqn:E;
+      try (simpl in H; discriminate).
+    rewrite all_o_map_true in E. specialize (E p Hp). destruct p as [k0 v]. apply entry_att in E. exact E.
+  - intros H.
+    assert (E : all_o (map (entry_check (validate (nb_defs k) n) [] [(PAny, mimebundle_schema)] None) kv) = Some true).
+    { apply all_o_map_true. intros [k0 v] Hp. apply entry_att. exact (H _ Hp). }
+    rewrite E. reflexivity.
+Qed.
+
+Lemma obj_get_In k kv v : obj_get k kv = Some v -> exists k', In (k', v) kv.
+Proof.
+  induction kv as [|[k0 v0] r IH]; simpl; [ discriminate | ].
+  destruct (str_eqb k k0).
+  - intros H. injection H as <-. eauto.
+  - intros H. destruct (IH H) as (k' & Hk'). eauto.
+Qed.
+
+Section AttVals.
+  Variable P : json -> Prop.
+  Variables latt ratt : list (pystr * json).
+  Hypothesis Hl : forall p, In p latt -> P (snd p).
+  Hypothesis Hr : forall p, In p ratt -> P (snd p).
+
+  Lemma att_step_vals acc name : (forall p, In p acc -> P (snd p)) -> forall p, In p (att_step latt ratt acc name) -> P (snd p).
+  Proof.
+    intros Ha p. unfold att_step.
+    destruct (obj_get name latt) as [lv|] eqn:El; destruct (obj_get name ratt) as [rv|] eqn:Er.
+    - apply obj_get_In in El as (kl & Hkl). apply obj_get_In in Er as (kr & Hkr).
+      destruct (py_eqb lv rv).
+      + intros Hp. apply obj_set_In in Hp as [->|Hp]; [ exact (Hl _ Hkl) | auto ].
+      + intros Hp. apply obj_set_In in Hp as [->|Hp]; [ exact (Hr _ Hkr) | ].
+        apply obj_set_In in Hp as [->|Hp]; [ exact (Hl _ Hkl) | auto ].
+    - apply obj_get_In in El as (kl & Hkl). intros Hp. apply obj_set_In in Hp as [->|Hp]; [ exact (Hl _ Hkl) | auto ].
+    - apply obj_get_In in Er as (kr & Hkr). intros Hp. apply obj_set_In in Hp as [->|Hp]; [ exact (Hr _ Hkr) | auto ].
+    - auto.
+  Qed.
+
+  Lemma att_fold_vals names acc : (forall p, In p acc -> P (snd p)) ->
+    forall p, In p (fold_left (att_step latt ratt) names acc) -> P (snd p).
+  Proof.
+    revert acc. induction names as [|n r IH]; simpl; intros acc Ha; auto.
+    apply IH. apply att_step_vals. exact Ha.
+  Qed.
+
+  Lemma merge_similar_attachments_vals : forall p, In p (merge_similar_attachments latt ratt) -> P (snd p).
+  Proof. unfold merge_similar_attachments. apply att_fold_vals. intros p []. Qed.
+End AttVals.
+
+Lemma similar_attachments_valid : forall k n latt ratt, k <= 5 ->
+  validate (nb_defs k) (S (S (S n))) attachments_schema (JObj latt) = Some true ->
+  validate (nb_defs k) (S (S (S n))) attachments_schema (JObj ratt) = Some true ->
+  validate (nb_defs k) (S (S (S n))) attachments_schema (JObj (merge_similar_attachments latt ratt)) = Some true.
+Proof.
+  intros k n latt ratt Hk Hl Hr. rewrite att_valid_iff in * by assumption.
+  apply (merge_similar_attachments_vals (fun v => validate (nb_defs k) n mimebundle_schema v = Some true) latt ratt); assumption.
 Qed.
 
 (* every value the similar-insert builder writes for a conflicting key is valid at that key's position of every cell
-   type that has the key, given that the local value was (reviewed fix; with the pinned SimIdDict the `id` case fails) *)
+   type that has the key, given that the values it is built from were (reviewed fix; with the pinned SimIdDict the `id`
+   case fails) *)
 Definition cell_type_defs : list schema :=
   [ref "nb#/definitions/raw_cell"; ref "nb#/definitions/markdown_cell"; ref "nb#/definitions/code_cell"].
+Definition ovalid (k : nat) (s : schema) (o : option json) : Prop :=
+  match o with Some v => validate (nb_defs k) F s v = Some true | None => True end.
 
-Lemma similar_value_valid_local : forall k T key s lv rv src v, k <= 5 ->
-  In T cell_type_defs ->
-  prop_schema (nb_defs k) T key = Some s ->
-  validate (nb_defs k) F s lv = Some true ->
-  similar_value SimIdLocal key lv rv src = Some v ->
-  validate (nb_defs k) F s v = Some true.
+Lemma att_or_empty_vals k n o att : k <= 5 ->
+  match o with Some v => validate (nb_defs k) (S (S (S n))) attachments_schema v = Some true | None => True end ->
+  att_or_empty o = Some att ->
+  validate (nb_defs k) (S (S (S n))) attachments_schema (JObj att) = Some true.
 Proof.
-  intros k T key s lv rv src v Hk HT Hs Hlv Hv.
-  unfold similar_value in Hv.
-  destruct (str_eqb key k_source) eqn:E1; [ apply str_eqb_eq in E1; subst key | ].
-  { injection Hv as <-. do 6 (destruct k as [|k]; [ destruct HT as [<-|[<-|[<-|[]]]]; vm_compute in Hs; injection Hs as <-; lazy; reflexivity | ]). exfalso; lia. }
-  destruct (str_eqb key k_metadata) eqn:E2; [ apply str_eqb_eq in E2; subst key | ].
-  { injection Hv as <-. do 6 (destruct k as [|k]; [ destruct HT as [<-|[<-|[<-|[]]]]; vm_compute in Hs; injection Hs as <-; lazy; reflexivity | ]). exfalso; lia. }
-  destruct (str_eqb key k_id) eqn:E3; [ injection Hv as <-; exact Hlv | ].
-  destruct (str_eqb key k_execution_count) eqn:E4; [ apply str_eqb_eq in E4; subst key | ].
-  { injection Hv as <-. do 6 (destruct k as [|k]; [ destruct HT as [<-|[<-|[<-|[]]]]; vm_compute in Hs; try discriminate Hs; injection Hs as <-; lazy; reflexivity | ]). exfalso; lia. }
-  destruct (str_eqb key k_outputs) eqn:E5; [ apply str_eqb_eq in E5; subst key | discriminate ].
-  { injection Hv as <-. do 6 (destruct k as [|k]; [ destruct HT as [<-|[<-|[<-|[]]]]; vm_compute in Hs; try discriminate Hs; injection Hs as <-; lazy; reflexivity | ]). exfalso; lia. }
+  intros Hk Ho E. destruct o as [[| | | | | |kv]|]; simpl in E; try discriminate; injection E as <-;
+    try exact Ho; apply att_valid_iff; auto; intros p [].
 Qed.
 
-Lemma similar_value_id_dict_invalid : forall T s lv rv src v,
+Lemma similar_value_valid_local : forall apol k T key s lo ro src v, k <= 5 ->
+  In T cell_type_defs ->
+  prop_schema (nb_defs k) T key = Some s ->
+  ovalid k s lo -> ovalid k s ro ->
+  similar_value SimIdLocal apol key lo ro src = Some v ->
+  validate (nb_defs k) F s v = Some true.
+Proof.
+  intros apol k T key s lo ro src v Hk HT Hs Hlo Hro Hv.
+  unfold similar_value in Hv.
+  destruct (str_eqb key k_source) eqn:E1; [ apply str_eqb_eq in E1; subst key | ].
+  { destruct lo, ro; try discriminate. injection Hv as <-.
+    do 6 (destruct k as [|k]; [ destruct HT as [<-|[<-|[<-|[]]]]; vm_compute in Hs; injection Hs as <-; lazy; reflexivity | ]). exfalso; lia. }
+  destruct (str_eqb key k_metadata) eqn:E2; [ apply str_eqb_eq in E2; subst key | ].
+  { destruct lo, ro; try discriminate. injection Hv as <-.
+    do 6 (destruct k as [|k]; [ destruct HT as [<-|[<-|[<-|[]]]]; vm_compute in Hs; injection Hs as <-; lazy; reflexivity | ]). exfalso; lia. }
+  destruct (str_eqb key k_id) eqn:E3; [ subst lo; exact Hlo | ].
+  destruct (str_eqb key k_execution_count) eqn:E4; [ apply str_eqb_eq in E4; subst key | ].
+  { injection Hv as <-. do 6 (destruct k as [|k]; [ destruct HT as [<-|[<-|[<-|[]]]]; vm_compute in Hs; try discriminate Hs; injection Hs as <-; lazy; reflexivity | ]). exfalso; lia. }
+  destruct (str_eqb key k_outputs) eqn:E5; [ apply str_eqb_eq in E5; subst key | ].
+  { injection Hv as <-. do 6 (destruct k as [|k]; [ destruct HT as [<-|[<-|[<-|[]]]]; vm_compute in Hs; try discriminate Hs; injection Hs as <-; lazy; reflexivity | ]). exfalso; lia. }
+  destruct (str_eqb key k_attachments) eqn:E6; [ apply str_eqb_eq in E6; subst key | discriminate ].
+  destruct apol; [ discriminate | ].
+  assert (Es : s = attachments_schema).
+  { clear Hv Hlo Hro. do 6 (destruct k as [|k]; [ destruct HT as [<-|[<-|[<-|[]]]]; vm_compute in Hs; try discriminate Hs; injection Hs as <-; reflexivity | ]). exfalso; lia. }
+  subst s.
+  destruct (att_or_empty lo) as [latt|] eqn:El; try discriminate.
+  destruct (att_or_empty ro) as [ratt|] eqn:Er; try discriminate.
+  injection Hv as <-.
+  change F with (S (S (S 37))) in *.
+  apply similar_attachments_valid; auto.
+  - exact (att_or_empty_vals k 37 lo latt Hk Hlo El).
+  - exact (att_or_empty_vals k 37 ro ratt Hk Hro Er).
+Qed.
+
+Lemma similar_value_id_dict_invalid : forall apol T s lv rv src v,
   In T cell_type_defs ->
   prop_schema (nb_defs 5) T k_id = Some s ->
-  similar_value SimIdDict k_id lv rv src = Some v ->
+  similar_value SimIdDict apol k_id (Some lv) (Some rv) src = Some v ->
   validate (nb_defs 5) F s v = Some false.
 Proof.
-  intros T s lv rv src v HT Hs Hv. vm_compute in Hv. injection Hv as <-.
+  intros apol T s lv rv src v HT Hs Hv. vm_compute in Hv. injection Hv as <-.
   destruct HT as [<-|[<-|[<-|[]]]]; vm_compute in Hs; injection Hs as <-; lazy; reflexivity.
 Qed.
 
-Definition similar_statement (pol : similar_id_policy) : Prop :=
+(* non-vacuity of the attachments branch: two similar markdown cells whose attachment differs *)
+Definition wit_md (minor5 : bool) (cid src img : string) : list (pystr * json) :=
+  ((k_attachments, JObj [(of_ascii "a.png", JObj [(of_ascii "image/png", JStr (of_ascii img))]);
+                         (of_ascii "same.png", JObj [(of_ascii "image/png", JStr (of_ascii "S"))])]) ::
+   (k_cell_type, JStr s_markdown) :: (if minor5 then [(k_id, JStr (of_ascii cid))] else []) ++
+   [(k_metadata, JObj []); (k_source, JStr (of_ascii src))])%list.
+Definition wit_att (k : nat) : option json :=
+  similar_insert_cell_with SimIdLocal SimAttKeepBoth (wit_md (Nat.leb 5 k) "c1" "x" "AAAA") (wit_md (Nat.leb 5 k) "c2" "y" "BBBB")
+    (if Nat.leb 5 k then [k_source; k_id; k_attachments] else [k_source; k_attachments]) (of_ascii "x|y").
+Example similar_insert_attachments_example : forall k, k <= 5 ->
+  match wit_att k with
+  | Some (JObj kv) =>
+      (validate (nb_defs k) F cell_schema (JObj kv) = Some true /\
+       match obj_get k_attachments kv with
+       | Some (JObj att) => map fst att = [of_ascii "LOCAL_a.png"; of_ascii "REMOTE_a.png"; of_ascii "same.png"]
+       | _ => False
+       end)
+  | _ => False
+  end.
+Proof. intros k Hk. do 6 (destruct k as [|k]; [ vm_compute; split; reflexivity | ]). exfalso; lia. Qed.
+
+Definition similar_statement (pol : similar_id_policy) (apol : similar_att_policy) : Prop :=
   match pol with
   | SimIdDict =>
       (all_valid 5 cell_schema [JObj (wit_code "cell1" "x = 1"); JObj (wit_code "cell2" "x = 2")] = true /\
-       exists c, similar_insert_cell_with pol (wit_code "cell1" "x = 1") (wit_code "cell2" "x = 2") [k_source; k_id] (of_ascii "<<< x = 1 === x = 2 >>>") = Some c /\
+       exists c, similar_insert_cell_with pol apol (wit_code "cell1" "x = 1") (wit_code "cell2" "x = 2") [k_source; k_id] wit_src = Some c /\
                  validate (nb_defs 5) F cell_schema c = Some false) /\
       (forall T s lv rv src v, In T cell_type_defs -> prop_schema (nb_defs 5) T k_id = Some s ->
-         similar_value pol k_id lv rv src = Some v -> validate (nb_defs 5) F s v = Some false)
+         similar_value pol apol k_id (Some lv) (Some rv) src = Some v -> validate (nb_defs 5) F s v = Some false)
   | SimIdLocal =>
-      forall k T key s lv rv src v, k <= 5 -> In T cell_type_defs -> prop_schema (nb_defs k) T key = Some s ->
-        validate (nb_defs k) F s lv = Some true -> similar_value pol key lv rv src = Some v ->
+      forall k T key s lo ro src v, k <= 5 -> In T cell_type_defs -> prop_schema (nb_defs k) T key = Some s ->
+        ovalid k s lo -> ovalid k s ro -> similar_value pol apol key lo ro src = Some v ->
         validate (nb_defs k) F s v = Some true
   end.
-Lemma similar_statement_holds : forall pol, similar_statement pol.
+Lemma similar_statement_holds : forall pol apol, similar_statement pol apol.
 Proof.
-  destruct pol; [ exact (conj similar_insert_refuted_dict similar_value_id_dict_invalid) | exact similar_value_valid_local ].
+  destruct pol; intros apol;
+    [ exact (conj (similar_insert_refuted_dict apol) (similar_value_id_dict_invalid apol)) | exact (similar_value_valid_local apol) ].
 Qed.
 
 (* ---------- existential forms (witnesses replayed on the implementation by the check) ---------- *)
